@@ -105,6 +105,9 @@ func c12(env *core.Env, sel bool) {
 	hW, hT := reg.NewHandles(), reg.NewHandles()
 	liveTwin := map[int]bool{}
 	n := c.Range("nops", 10, 40)
+	if env.Tier == "thorough" && c.Bool("deep", 1, 3) {
+		n = c.Range("nops.deep", 40, 160)
+	}
 	env.Sample("select=%v immutableTags=%v repos=%v denyRate=1/%d", sel, immutable, cfg.Repos, denyRate)
 	for i := 0; i < n; i++ {
 		op := g.Next()
